@@ -26,6 +26,10 @@ RULE = (
 )
 
 ASSUMPTIONS = [
+    "after every concurrent history on the SQLite file database, when every call has returned, a connection that does not "
+    "belong to the store's pool takes and releases the write lock (BEGIN IMMEDIATE / ROLLBACK, 1.5 s of patience): `database is "
+    "locked` means that a store call left a transaction open (whatever it reported is then not committed); every other "
+    "in-memory sequential history reaches the backend through the public `pavex_session::SessionStore` wrapper",
     "TTL scenarios (every round, both stores, own store instance each): six records written within a few ms (1 s TTLs, some "
     "extended by update_ttl / update, a 1 h TTL shortened to 1 s), then - at least 1.1 s later - delete_expired (all at once or in "
     "batches of one) and loads: extended records must still be there with the state last written, the others gone, and "
